@@ -26,7 +26,9 @@ easily 100ms for bigger files.
 """
 
 
-def _resolve_names(definition_names, avoid_names=()):
+def _resolve_names(definition_names, avoid_names=(), followed_imports=None):
+    if followed_imports is None:
+        followed_imports = set()
     for name in definition_names:
         if name in avoid_names:
             # Avoiding recursions here, because goto on a module name lands
@@ -39,7 +41,15 @@ def _resolve_names(definition_names, avoid_names=()):
             yield name
 
         if name.api_type == 'module':
-            yield from _resolve_names(name.goto(), definition_names)
+            # Every goto creates new name objects, so imports that were
+            # already followed have to be recognized by their tree name.
+            # Otherwise import cycles (`from b import x` in a.py and
+            # `from a import x` in b.py) recurse forever.
+            key = name if name.tree_name is None else name.tree_name
+            if key in followed_imports:
+                continue
+            followed_imports.add(key)
+            yield from _resolve_names(name.goto(), definition_names, followed_imports)
 
 
 def _dictionarize(names):
